@@ -39,6 +39,9 @@ def run_native(name, src, cfg='abacus', args=(), timeout=3600, extra_flags=(), l
     for i, f in enumerate(d.get('first_failures', [])[:5]):
         viol.append({'id': '%s_%d' % (name, i), 'input': f, 'has_input': True, 'kind': 'native stand-in counterexample',
                      'what': f.get('what'), 'replay_hint': 'rebuild native/%s and run it; or evaluate the predicate on this input' % src})
+    if d.get('failures', 0) and not viol:
+        viol.append({'id': '%s_0' % name, 'input': {}, 'has_input': False, 'kind': 'native stand-in counterexample',
+                     'what': '%d failing evaluations (the program did not print the inputs)' % d['failures']})
     return {'name': name, 'kind': label, 'ok': d.get('failures', 0) == 0, 'detail': d.get('domain', ''),
             'summary': '%s: %d evaluations, %d failures (%s)' % (name, d.get('evaluations', 0), d.get('failures', 0), label),
             'evaluations': d.get('evaluations', 0), 'violations': viol, 'samples': d.get('samples', [])[:4],
